@@ -84,7 +84,7 @@ type violation struct {
 	Input      string
 }
 
-func runProperty(p *Prog, id, tier string, cfg SolverCfg, verifDir string) int {
+func runProperty(p *Prog, id, tier string, cfg SolverCfg, verifDir, outDir string) int {
 	t0 := time.Now()
 	seed := 0
 	if s := os.Getenv("VERIF_SEED"); s != "" {
@@ -215,7 +215,7 @@ func runProperty(p *Prog, id, tier string, cfg SolverCfg, verifDir string) int {
 	exit := 0
 	nViol := 0
 	var knownPrinted []string
-	os.MkdirAll(filepath.Join(verifDir, "replays", id), 0o755)
+	os.MkdirAll(filepath.Join(outDir, "replays", id), 0o755)
 	replayDone := false
 	var replayFound bool
 	var replayInput, replayOut string
@@ -240,7 +240,7 @@ func runProperty(p *Prog, id, tier string, cfg SolverCfg, verifDir string) int {
 			replayFound, replayInput, replayOut = runReplay(p.repo, verifDir, id, meta, seed, v.Model, "")
 		}
 		v.Found, v.Input = replayFound, replayInput
-		rp := filepath.Join(verifDir, "replays", id, sanitize(v.Obligation)+".json")
+		rp := filepath.Join(outDir, "replays", id, sanitize(v.Obligation)+".json")
 		rec := map[string]interface{}{
 			"property": id, "obligation": v.Obligation, "function": v.Func, "class": v.Class, "what": v.Desc, "where": v.Pos,
 			"verifier_status": v.Status, "verifier_output": v.Output, "model": v.Model,
@@ -307,9 +307,9 @@ func runProperty(p *Prog, id, tier string, cfg SolverCfg, verifDir string) int {
 		"property_id": id, "tier": tier, "seed": seed, "level": level, "coverage": cov,
 		"assumptions": assumptions, "wall_s": round3(time.Since(t0).Seconds() + p.loadSecs), "violations": nViol,
 	}
-	os.MkdirAll(filepath.Join(verifDir, "evidence"), 0o755)
+	os.MkdirAll(filepath.Join(outDir, "evidence"), 0o755)
 	data, _ := json.MarshalIndent(ev, "", " ")
-	os.WriteFile(filepath.Join(verifDir, "evidence", id+".json"), data, 0o644)
+	os.WriteFile(filepath.Join(outDir, "evidence", id+".json"), data, 0o644)
 	fmt.Printf("%s: %d/%d obligations discharged over %d functions, %d violations, %.1fs\n", id, nDis, nObl, len(funcsUnder), nViol, time.Since(t0).Seconds()+p.loadSecs)
 	return exit
 }
